@@ -1,51 +1,61 @@
 /-
 C15 — witnesses: clauses that are false of the current code (each mirrored by a `finding:` line of
 known_findings.txt and a replay function in py/props/c15.py), refuted on a concrete input of the model.
-The true weaker statements are the `…_partial` theorems of Props/C15.lean.
+The true weaker statements are the `…_partial` theorems of Props/C15*.lean.  The witnesses of findings that
+were repaired in /repo are kept as regression theorems (first section).
 -/
 import WpModel.Model.Counters
 import WpModel.Model.Repaginate
 import WpModel.Gen.CounterStyles
 import WpModel.Model.PageCounters
 import WpModel.Model.TargetText
+import WpModel.Model.CounterScope
+import WpModel.Model.ListHints
 
 namespace Wp.Witness.C15
 open Wp.Counters Wp.Repaginate
 
-/-- finding `range-auto-crash`: `@counter-style x { system: cyclic; symbols: a b; range: auto }` — the
-validator stores `('auto',)`, `render_value` unpacks its element as a `(min, max)` pair.
-Refutes: "the range test never fails on a validated `range`" (`C15.range_test_total_partial`). -/
-theorem range_auto_raises :
-    renderValueTop
+/-! ## Regressions of repaired findings (`fixed:` lines of known_findings.txt): the former witness inputs,
+with the now-correct behaviour.  If a defect comes back the model follows the code again and these stop
+building — a broken obligation, reported with the corpus input by the `fixed-regressions` section. -/
+
+/-- fixed `range-auto-crash` (5be1d36): `@counter-style x { system: cyclic; symbols: a b; range: auto }` —
+the validator stores the string `'auto'` and `render_value` uses the automatic range of the system (it used to
+store `('auto',)`, on which the range test raised ValueError). -/
+theorem range_auto_renders :
+    (([1, 2, 3, 0, -1] : List Int).map fun v => renderValueTop
       ([("x", { system := some ⟨false, "cyclic", none⟩, symbols := some [.str "a", .str "b"],
-                range := some (.entries [.autoKw]) })] ++ Gen.uaCounterStyles)
-      1 (.named "x") = .error .valueError := by
+                range := some .auto })] ++ Gen.uaCounterStyles) v (.named "x")) =
+      [.ok "a", .ok "b", .ok "a", .ok "b", .ok "a"] := by
   decide
 
-/-- finding `extends-own-symbols-loses-sign`:
+/-- fixed `extends-own-symbols-loses-sign` (1bdaf16):
 `@counter-style a { system: extends lower-alpha; symbols: x; range: infinite infinite }`, value −5:
-the alphabetic algorithm has one symbol only, the decimal fallback is called with `abs(value)`.
-Refutes: "the decimal fallback renders the value the style was asked for"
-(`C15.decimal_fallback_value_partial`). -/
-theorem decimal_fallback_loses_sign :
+the alphabetic algorithm has one symbol only, the decimal fallback now receives the original value (it used
+to receive `abs(value)` and print `5`).  General statement: `C15.decimal_fallback_value`. -/
+theorem decimal_fallback_keeps_sign :
     step3 { symbols := some [.str "x"] } "alphabetic" none (step3Value "alphabetic" (-5)) (decide ((-5 : Int) < 0))
-      = .decimal 5 ∧
+      = .decimal (-5) ∧
     renderValueTop
       ([("a", { system := some ⟨true, "lower-alpha", none⟩, symbols := some [.str "x"],
                 range := some (.entries [.pair .negInf .posInf]) })] ++ Gen.uaCounterStyles)
-      (-5) (.named "a") = .ok "5" := by
+      (-5) (.named "a") = .ok "-5" := by
   decide
 
-/-- finding `extends-empty-symbols-index-error`: `@counter-style e { system: extends decimal; symbols: }`
-renders 0 with `symbols[0]` before the length test.
-Refutes: "the numeric system falls back to decimal when it has fewer than two symbols". -/
-theorem extends_empty_symbols_index_error :
+/-- fixed `extends-empty-symbols-index-error` (1bdaf16): a numeric style with an empty `symbols` tuple tests
+the symbol count before reading `symbols[0]`: 0 renders as decimal `0` (it used to raise IndexError).
+(Since d71ddd0 `symbols: ;` no longer even registers the empty tuple, `C15.preprocess_empty_ignored`.)
+General statement: `C15.step3_no_index_error`. -/
+theorem extends_empty_symbols_renders_zero :
     renderValueTop
       ([("e", { system := some ⟨true, "decimal", none⟩, symbols := some [] })] ++ Gen.uaCounterStyles)
-      0 (.named "e") = .error .indexError ∧
+      0 (.named "e") = .ok "0" ∧
     renderValueTop
       ([("e", { system := some ⟨true, "decimal", none⟩, symbols := some [] })] ++ Gen.uaCounterStyles)
-      7 (.named "e") = .ok "7" := by
+      7 (.named "e") = .ok "7" ∧
+    renderValueTop
+      ([("e", { system := some ⟨true, "decimal", none⟩, symbols := some [] })] ++ Gen.uaCounterStyles)
+      (-7) (.named "e") = .ok "-7" := by
   decide
 
 /-- The pagination of finding `page-fixpoint-oscillation`, abstractly: the state is "is the label
@@ -72,18 +82,24 @@ theorem oscillation :
   intro s _
   cases s <;> decide
 
-/-- finding `target-counter-pages-forward-crash`: `a::after { content: target-counter(attr(href), pages) }`
-with the target on a later page.  When the page holding the link is made, the target has not been met
-yet (`page_maker_index is None`) and step 3 of the counter section evaluates `None >= 0`.
-Refutes: "the counter section of `make_page` never raises" (`C15.step3_total_partial`). -/
-theorem forward_pages_reference_raises :
+/-- fixed `target-counter-pages-forward-crash` (da41776): `a::after { content: target-counter(attr(href), pages) }`
+with the target on a later page.  When the page holding the link is made, the target has not been met yet
+(`page_maker_index is None`): step 3 of the counter section now skips it (it used to evaluate `None >= 0`,
+TypeError); the page is marked when the target is met (`C15.step3_marks_target_page`).  General statement:
+`C15.step3_total`. -/
+theorem forward_pages_reference_passes :
     Wp.PageCounters.counterSection
       { collecting := false
         targets := [("t", ⟨true, none, []⟩)]
         lookups := [⟨true, [], [("t", ["pages"])], none, false, []⟩]
         pageMaker := [⟨false, false, [], []⟩]
         calls := [] }
-      1 [("page", [1]), ("pages", [0])] [⟨none, some 0⟩] = .error .typeError := by
+      1 [("page", [1]), ("pages", [0])] [⟨none, some 0⟩] =
+    .ok { collecting := false
+          targets := [("t", ⟨true, none, []⟩)]
+          lookups := [⟨true, [], [("t", ["pages"])], some 0, false, []⟩]
+          pageMaker := [⟨false, false, [], [0]⟩]
+          calls := [] } := by
   rfl
 
 open Wp.TargetText in
@@ -97,6 +113,45 @@ theorem target_text_of_open_target_is_empty :
       [.mk 1 true (some "x") "self" none (some [.str "[", .ref "x" .content, .str "]"]) [] ""] "")
       = [(1, "[]")] ∧
     boxText (.mk 1 true (some "x") "self" none (some [.str "[", .ref "x" .content, .str "]"]) [] "") = "self" := by
+  decide
+
+open Wp.ListHints in
+/-- finding `counter-set-before-increment`: `<p style="counter-set: c 5; counter-increment: c 1">` —
+`update_counters` runs the `counter-set` loop before the `counter-increment` loop, the counter ends at 6.
+css-lists-3 §4.5 ("reset, then incremented, then set") gives 5 (second component: the same two operations on
+the reference frames in the specified order).
+Refutes: "counter-set gives the counter the value it names" for an element that also increments it. -/
+theorem set_before_increment :
+    (updateCounters initState ⟨.other, [], [("c", 5)], some [("c", 1)]⟩).map (fun st => vget st.values "c")
+      = .ok (some [6]) ∧
+    Spec.stack (Spec.touch (fun _ => 5) (Spec.touch (fun t => t + 1) Spec.init "c") "c") "c" = [5] := by
+  decide
+
+open Wp.ListHints in
+/-- finding `li-value-nests-scope`: `<ol><li>a</li><li value="7">b</li>…` — the hint of `<li value>` is
+`counter-reset:list-item 7;counter-increment:none`; inside the list (whose own instance is in the frame of
+the `ol`'s siblings) the reset *adds* an instance to the frame of the items: two `list-item` instances are in
+scope at the second item, `counters(list-item, ".")` prints `1.7`.
+Refutes: "a flat list has one list-item counter" (css-lists-3 UA sheet: `li[value]` sets the list's counter). -/
+theorem li_value_nests_scope :
+    let inList := Spec.machine.push (Spec.update Spec.init (applyHint Gen.olHint Gen.uaOl none))
+    let afterFirst := Spec.update inList (applyHint Gen.liHint Gen.uaLi none)
+    Spec.stack afterFirst "list-item" = [1] ∧
+    Spec.stack (Spec.update afterFirst (applyHint Gen.liHint Gen.uaLi (some [.int 7]))) "list-item" = [7, 1] := by
+  decide
+
+open Wp.ListHints in
+/-- finding `ol-start-not-integer`: `<ol start="1.5">` — the raw attribute is pasted into
+`counter-reset:list-item 1.5;counter-increment:list-item -1`: the reset is invalid and dropped (the UA reset to
+0 stays), the decrement is kept, the first item prints 0.  `<ol start="abc">` resets the two counters
+`list-item` and `abc`.  HTML's rules for parsing integers give 1 (`1.5`) and the default 1 (`abc`).
+Refutes: "the items of `<ol start>` count from the integer HTML reads in the attribute". -/
+theorem ol_start_not_integer :
+    Spec.stack (Spec.machine.push (Spec.update Spec.init (applyHint Gen.olHint Gen.uaOl (some [.other]))))
+      "list-item" = [-1] ∧
+    applyHint Gen.olHint Gen.uaOl (some [.ident "abc"]) =
+      ⟨.other, [("list-item", 0), ("abc", 0)], [], some [("list-item", -1)]⟩ ∧
+    Spec.stack (Spec.machine.push (Spec.update Spec.init (applyHint Gen.olHint Gen.uaOl none))) "list-item" = [0] := by
   decide
 
 end Wp.Witness.C15
